@@ -689,7 +689,7 @@ class CDSInterval(AbstractFeatureInterval):
         loc = self.chromosome_location
         offset = self.frames[0].value
 
-        if relative_window:
+        if relative_window is not None:
             relative_loc = loc.intersection(relative_window)
         else:
             relative_loc = loc
@@ -758,7 +758,7 @@ class CDSInterval(AbstractFeatureInterval):
         ]
         cleaned_location = CompoundInterval.from_single_intervals(cleaned_blocks)
 
-        if relative_window:
+        if relative_window is not None:
             relative_cleaned_location = cleaned_location.intersection(relative_window)
         else:
             relative_cleaned_location = cleaned_location
